@@ -2,32 +2,14 @@
 """Writes /verif/MANIFEST.json from the table below (so the file is always schema-valid)."""
 import json
 import os
+import sys
+
+sys.path.insert(0, os.path.dirname(os.path.abspath(__file__)))
 
 ROOT = os.path.dirname(os.path.dirname(os.path.abspath(__file__)))
 ALL = ['C%02d' % i for i in range(1, 21)]
 
-# property -> (technique, level text, level note, design ref)
-CLAIMED = {
-    'C02': ('Coq proof over a generic solve_t state-machine model (induction on passes) + PrimFloat differential correspondence on scripted models',
-            'Theorems C02_* (Props/C02.v) hold for every number type, evaluation oracle, hook, option set and state: least-k convergence, '
-            'status/iterations/return, failure branch, min/max guard, offset seeding and rejection, max_iter=0. The model is tied to '
-            'BaseModel.solve_t by a bit-exact differential check on scripted models (vm_compute inside Coq), and the statement is also '
-            'evaluated directly on the implementation (oracle) to find failing inputs.',
-            'Trusted: Coq kernel + vm_compute, PrimFloat primitives, gen_constants.py, the scripted-model harness. Modelled not verified: '
-            'oracles (_evaluate, hooks) touch only variable values; t inside the span.', 'DESIGN.md §3 C02'),
-    'C19': ('Coq proof over an executable model of the tabular glue (export, import, symbol tables) + differential correspondence through an extracted OCaml driver',
-            'Theorems C19_* (Props/C19.v, 27, all closed under the global context): export shape (one row per period, columns in model order, '
-            'underscore filter on the first character, status/iterations iff requested), cell and dtype fidelity, linker tables, '
-            'from_dataframe∘to_dataframe round trips and the symbols round trip hold for all models, flags and symbol lists under explicit '
-            'guards shown satisfiable; guard-excluded cases are refuted by vm_compute witnesses. The model is tied to fsic/tools.py, '
-            'BaseModel.from_dataframe and VectorContainer.to_dataframe by a differential check (extracted OCaml) and the statement is '
-            'evaluated directly on pandas objects (oracle).',
-            'Partial in one respect: pandas/NumPy coercions (pd_infer, pd_index, pd_of_series, np_cast) are modelled as tables validated only '
-            'by the correspondence against pandas 3.0.5 / NumPy 2.5.3, not verified. Trusted: Coq kernel, extraction (ExtrOcamlBasic, '
-            'ExtrOcamlString) + OCaml driver, gen_constants.py (type enum). Outside the model: MultiIndex/TimedeltaIndex spans, use_aliases '
-            '(C18), non-Latin-1 text.', 'DESIGN.md §3 C19, §7.3'),
-}
-PENDING = 'check not built yet in this session (model and theorems planned in DESIGN.md §3); not claimed until its check runs green'
+from claims import CLAIMED, PENDING, NA  # noqa: E402
 
 def main():
     checks = []
@@ -58,7 +40,6 @@ def main():
     with open(os.path.join(ROOT, 'MANIFEST.json'), 'w') as f:
         json.dump(man, f, indent=1)
 
-NA = {}
 
 if __name__ == '__main__':
     main()
